@@ -5,13 +5,14 @@
       (a fact of real arithmetic; in binary64 the instants agree only up to rounding, which the metamorphic search measures);
     - continuation in ANOTHER unit needs the unit-independence of the whole run (C07): here _partial, covered by the
       bit-exact correspondence on schedules that continue in another unit and by the metamorphic search;
-    - reset/rerun: the first instant of the rerun is proved to record the same observable values as the original first
-      instant whenever the live position, speed and duty cycle agree (the solver's flag is cleared by a fresh start and the
-      left-over torque, acceleration and current are proved irrelevant).  The full statement "the whole history is
-      reproduced" is FALSE when a control rule changes the duty cycle at instant 0 of a self-locking train (finding D4:
-      reset restores the post-control duty cycle); the remaining induction over later instants is not mechanised: _partial. *)
+    - reset/rerun: [C12_reset_rerun] — reset, (optionally a new Solver), re-apply the initial position and speed, the same run:
+      the rerun's history equals the original in every observable field of every instant, and the live values and the lock
+      flag agree, for every chain, load, rule set, stop condition, dt and T, PROVIDED the duty cycle that reset restores
+      (the one recorded at instant 0) is the one the original run started from.  Without that proviso the statement is
+      FALSE: a control rule that changes the duty cycle at instant 0 of a self-locking train (finding D4: reset restores the
+      post-control duty cycle, which the lock test of instant 0 reads) — [C12_reset_rerun_refuted]. *)
 From Coq Require Import ZArith String List Bool PrimFloat.
-From GP Require Import ArithDef FloatUtil UnitsCore PyUnits QOps Motor Solver SolverProofs SolverRun SolverSched Examples.
+From GP Require Import ArithDef FloatUtil UnitsCore PyUnits QOps Motor Solver SolverProofs SolverRun SolverSched SolverRerun Examples.
 Import ListNotations.
 
 Theorem C12_loop_concatenates : forall (A : Arith) (c : @chain A) load ctl J dt ts1 ts2 st,
@@ -27,11 +28,39 @@ Theorem C12_continue_same_step : forall (A : Arith) (c : @chain A) load ctl dt T
   run c load ctl None dt T2 st1 = run c load ctl None dt T12 st.
 Proof. exact (@continue_same_step). Qed.
 
-Theorem C12_rerun_first_instant_partial : forall (A : Arith) (c : @chain A) load ctl J t f v v' s lk prov,
-  v_pos_last v' = v_pos_last v -> v_spd_last v' = v_spd_last v -> v_pwm v' = v_pwm v -> v_tq0 v = None ->
-  instant c load ctl J t f v' false prov = Ok (s, lk) ->
-  exists s0, instant c load ctl J t f v false prov = Ok (s0, lk) /\ obs s0 = obs s.
-Proof. exact (@first_instant_rerun). Qed.
+(** [fresh p w pwm0]: a powertrain not simulated yet (initial position p and speed w of the output element, duty cycle pwm0);
+    [same_obs st st']: same live values, same lock flag, histories equal instant by instant in time and in every recorded
+    variable of every element (position, speed, acceleration, torque, driving torque, load torque, duty cycle, current, held flag);
+    [comparable tq0]: the recorded motor torque of instant 0 can be compared with zero (it is a torque). *)
+Theorem C12_reset_rerun : forall (A : Arith) (c : @chain A) load ctl stop dt T p w pwm0 (newsolver : bool) st1 t0 s0 rest tq0,
+  run c load ctl stop dt T (fresh p w pwm0) = Ok st1 ->
+  rev (y_hist st1) = (t0, s0) :: rest ->
+  s_pwm s0 = pwm0 ->
+  headq (s_tq s0) = Ok tq0 -> comparable tq0 ->
+  exists st2,
+    exec c load (SReset :: (if newsolver then [SNewSolver] else []) ++ [SSetInit p w; SRun dt T ctl stop])%list st1 = Ok st2 /\
+    same_obs st1 st2.
+Proof. exact (@rerun_reproduces). Qed.
+Theorem C12_same_obs_means : forall (A : Arith) (st st' : @sys A), same_obs st st' ->
+  y_live st = y_live st' /\ y_locked st = y_locked st' /\
+  Forall2 (fun a b => fst a = fst b /\ obs (snd a) = obs (snd b)) (y_hist st) (y_hist st').
+Proof. intros A st st' H. exact H. Qed.
+
+(** non-vacuity of the hypotheses: the self-locking example train without controller, 5 Nm load: a run of 8 steps records 9 instants,
+    the duty cycle recorded at instant 0 is the initial one, and the recorded motor torque compares with zero *)
+Definition ex12_run : res (@sys FX0) :=
+  run (ex_chain true) (ex_load 5) None None (Qx KTimeInterval 1 "ms") (Qx KTimeInterval 8 "ms")
+      (fresh (Qx KAngularPosition 0 "rad") (Qx KAngularSpeed 0 "rad/s") 1).
+Example C12_rerun_nonvacuous :
+  match ex12_run with
+  | Ok st => match rev (y_hist st) with
+             | (_, s0) :: rest => PrimFloat.eqb (s_pwm s0) 1 && Nat.eqb (length rest) 8 &&
+                                  match headq (s_tq s0) with
+                                  | Ok t => match q_gt t NULL_TQ, q_lt t NULL_TQ with Ok _, Ok _ => true | _, _ => false end
+                                  | Err _ => false end
+             | [] => false end
+  | Err _ => false end = true.
+Proof. vm_compute. reflexivity. Qed.
 
 (** finding D4 in the executable model (binary64): the self-locking example train under ConstantPWM(0) from t = 0, reset, rerun
     with a new solver: the instant-0 acceleration of the output changes from non-zero to zero *)
@@ -49,4 +78,4 @@ Example C12_nonvacuous : Nat.eqb (hist_len (ex_final true 5)) 21 = true.
 Proof. vm_compute. reflexivity. Qed.
 
 Print Assumptions C12_continue_same_step.
-Print Assumptions C12_rerun_first_instant_partial.
+Print Assumptions C12_reset_rerun.
